@@ -165,7 +165,7 @@ def body_hist(cube, **kw):
 # ---------------------------------------------------------------- generated graphs: regenerate / attach_attackers
 def L_MINI():
     L = langs
-    steps = [L.step('a', 'or', reaches=[L.to(L.fld('q'), 'b'), L.astep('c')]),
+    steps = [L.step('a', 'or', reaches=[L.to(L.fld('q'), 'b'), L.astep('c'), L.to(L.fld('q'), 'b'), L.astep('c')]),
              L.step('b', 'and', reaches=[L.astep('c')]),
              L.step('c', 'or'),
              L.step('d', 'defense', reaches=[L.astep('a')], ttc=L.DISABLED)]
